@@ -330,6 +330,8 @@ Section Chan.
                 (Cconv (kern eom (length (Pad0 p x'))) (Pad0 p x'))).
     { intros p. rewrite <- lin_pad0 by exact HL.
       rewrite lin_length by (rewrite !pad0_length; lia).
+      replace (length (Pad0 p x')) with (length (Pad0 p x))
+        by (rewrite !pad0_length; lia).
       apply cconv_linear. rewrite !pad0_length. lia. }
     destruct eom.
     - destruct etr as [p|]; [|discriminate].
@@ -469,8 +471,8 @@ Section Chan.
     - exact HB.
     - intros j Hj. apply (sig_Forall (fun v => topp B [<=] v /\ v [<=] B)).
       + apply Forall_pad0; [|exact Hx]. split.
-        * replace t0 with (topp t0) at 2 by ring.
-          apply (opp_le T t0 t1 tadd tmul tsub topp tle OR). exact HB.
+        * pose proof (opp_le T t0 t1 tadd tmul tsub topp tle OR t0 B HB) as Q.
+          replace (topp t0) with t0 in Q by ring. exact Q.
         * exact HB.
       + rewrite HN; exact Hj.
     - intros j Hj Hfar. unfold sig_of, pad0.
